@@ -114,9 +114,24 @@ def norm_sums(txt):
     return txt
 
 
+def _copy_types(prog):
+    ts = getattr(prog, "_copy_types", None)
+    if ts is None:
+        ts = {re.sub(r"<.*$", "", i["self"]) for i in prog.impls if i["trait"] == "core::marker::Copy"}
+        prog._copy_types = ts
+    return ts
+
+
 def summary(f):
     from .features import effect_canon
     lines = effect_canon(f, cells=True)
+    # `x.clone()` / `Clone::clone(&x)` of a `Copy` type is the copy `*x`
+    cts = _copy_types(f.prog)
+
+    def unclone(m):
+        ty = re.sub(r"<.*$", "", m.group(1))
+        return m.group(2) if ty in cts else m.group(0)
+    lines = [re.sub(r"<((?:[^<>()]|<[^<>()]*>)*) as core::clone::Clone>::clone\(([^()]*)\)", unclone, l) for l in lines]
     # whole-variable assignments are not effects: a variable assigned once is replaced by its value wherever it is used
     # (`CALL~` = the kept result of a call that receives no `&mut`: a value, like a store of an expression)
     stores = {}
